@@ -102,6 +102,7 @@ type c19Step struct {
 	By       *c19RSpec         `json:"by,omitempty"`
 	Reason   string            `json:"reason,omitempty"`
 	Composed bool              `json:"composed,omitempty"`
+	Fin      bool              `json:"fin,omitempty"` // cu: the Usage is created already carrying the controller's finalizer (templated / restored)
 	Policy   string            `json:"policy,omitempty"`
 	WO       []string          `json:"wo,omitempty"`
 	U        string            `json:"u,omitempty"`
@@ -1093,6 +1094,9 @@ func (s *c19Sys) exec0(st c19Step) string {
 			u.Labels = map[string]string{xcrd.LabelKeyNamePrefixForComposed: "xr"}
 		}
 		u.OwnerReferences = s.ownerRefTo(st.Ctrl)
+		if st.Fin {
+			u.Finalizers = []string{usagectrl.VerifFinalizer}
+		}
 		if st.Of != nil {
 			u.Spec.Of = *c19Resource(st.Of)
 		}
@@ -1205,6 +1209,7 @@ type c19SUsage struct {
 	ByGroup, ByKind, ByName       string
 	HasBy                         bool
 	Ready, Deleting, Fin          bool
+	Composed                      bool
 	UID                           types.UID
 	Owners                        []metav1.OwnerReference
 	Details                       string
@@ -1255,6 +1260,7 @@ func (s *c19Sys) snapshot() *c19Snap {
 					x.ByName = u.Spec.By.ResourceRef.Name
 				}
 			}
+			x.Composed = u.Labels[xcrd.LabelKeyNamePrefixForComposed] != ""
 			x.Ready = u.Status.GetCondition(xpv1.TypeReady).Status == corev1.ConditionTrue
 			x.Deleting = u.DeletionTimestamp != nil
 			for _, f := range u.Finalizers {
@@ -1447,6 +1453,38 @@ func (s *c19Sys) afterCall(t *c19Thread, c CallInfo, before *c19Snap) {
 			usingKey, usedKey := c19ResKey(me.ByGroup, me.ByKind, me.ByName), c19ResKey(me.OfGroup, me.OfKind, me.OfName)
 			if _, saw := t.gotAt[usingKey]; saw && usingKey != usedKey {
 				s.mon("C19:deleting-usage-released-while-user-exists", fmt.Sprintf("reconcile of Usage %s (deletion requested) found its using resource %s and went on to %s %s %s: the used resource is released while the user exists", t.name, usingKey, c.Verb, c.GK, c.Name))
+			}
+		}
+		// the same for a composed Usage whose spec.by is still a selector: while a resource the
+		// selector selects exists, a deletion reconcile may persist the resolution but must neither
+		// drop the finalizer nor remove the label - whatever made the resolution fail this time
+		if me := before.Usages[t.name]; me != nil && t.servedDeleting && me.UID == t.servedUID && me.Composed && me.HasBy && me.ByName == "" && len(me.ByLabels) > 0 && !me.ByMC {
+			selected := ""
+			for k, r := range before.Res {
+				if r.Group != me.ByGroup || r.Kind != me.ByKind {
+					continue
+				}
+				all := true
+				for lk, lv := range me.ByLabels {
+					if r.Labels[lk] != lv {
+						all = false
+					}
+				}
+				if all && (selected == "" || k < selected) {
+					selected = k
+				}
+			}
+			released := false
+			if a := after.Usages[t.name]; me.Fin && (a == nil || a.UID != me.UID || !a.Fin) {
+				released = true
+			}
+			for k, rb := range before.Res {
+				if ra, ok := after.Res[k]; ok && ra.UID == rb.UID && rb.InUse && !ra.InUse && me.names(rb) {
+					released = true
+				}
+			}
+			if selected != "" && released {
+				s.mon("C19:deleting-usage-released-while-user-exists", fmt.Sprintf("reconcile of the composed Usage %s (deletion requested, spec.by still a selector) released the used resource (%s %s %s) while %s, which the selector selects, exists", t.name, c.Verb, c.GK, c.Name, selected))
 			}
 		}
 		for k, rb := range before.Res {
